@@ -1,31 +1,623 @@
+// C18 — Imports resolve, terminate, and mean the same as inlining the files.
+//
+// Bounded-exhaustive model check on the real generator: every directed graph (self-loops allowed)
+// over n <= 3 files (n = 4 too; every go_package assignment in the thorough tier, two in quick)
+// x go_package assignment x import mode x directory placement / import spelling is materialised on
+// disk and generated with the code under test; an independent reference (own reachability, own
+// cycle DFS, own inliner) says what must come out. See NOTES.md.
 package main
 
 import (
-	"bytes"
+	"encoding/json"
+	"flag"
 	"fmt"
 	"os"
+	"path/filepath"
+	"runtime"
+	"sort"
+	"strings"
+	"sync"
+	"sync/atomic"
 	"time"
 
-	"github.com/200sc/bebop"
+	"verif/vlib"
 )
 
-func main() {
-	for _, m := range []bebop.ImportGenerationMode{bebop.ImportGenerationModeSeparate, bebop.ImportGenerationModeCombined} {
-		f, _ := os.Open(os.Args[1])
-		bf, _, err := bebop.ReadFile(f)
-		f.Close()
-		if err != nil {
-			panic(err)
+var workBase string
+
+func cleanup() {
+	if workBase != "" {
+		_ = os.RemoveAll(workBase)
+	}
+}
+
+func fatalf(format string, a ...any) {
+	cleanup()
+	vlib.Fatal(format, a...)
+}
+
+// ---------------------------------------------------------------------------------------------
+// violation collector: keeps, per signature, the smallest witness (deterministic whatever the
+// scheduling of the workers) and the number of cases.
+
+type entry struct {
+	count int
+	rank  []int
+	msg   string
+	c     map[string]any
+}
+
+type collector struct {
+	mu sync.Mutex
+	m  map[string]*entry
+}
+
+func less(a, b []int) bool {
+	for i := range a {
+		if i >= len(b) {
+			return false
 		}
-		var b bytes.Buffer
-		t0 := time.Now()
-		for i := 0; i < 1000; i++ {
-			b.Reset()
-			err = bf.Generate(&b, bebop.GenerateSettings{PackageName: "out", ImportGenerationMode: m})
-		}
-		fmt.Println(time.Since(t0)/1000, err, b.Len())
-		if m == 0 {
-			fmt.Println(b.String()[:600])
+		if a[i] != b[i] {
+			return a[i] < b[i]
 		}
 	}
+	return len(a) < len(b)
+}
+
+func (c *collector) add(sig, msg string, rank []int, mk func() map[string]any) {
+	c.mu.Lock()
+	defer c.mu.Unlock()
+	e := c.m[sig]
+	if e == nil {
+		e = &entry{}
+		c.m[sig] = e
+	}
+	e.count++
+	if e.c == nil || less(rank, e.rank) {
+		e.rank, e.msg, e.c = rank, msg, mk()
+	}
+}
+
+// ---------------------------------------------------------------------------------------------
+
+type explorer struct {
+	run      *vlib.Run
+	col      *collector
+	states   atomic.Int64
+	asserted atomic.Int64 // states where more than termination is asserted
+	evals    atomic.Int64
+	triples  *vlib.Counter // (canonical graph+package pattern, mode, outcome class) on flat/plain
+	classes  *vlib.Counter // mode/outcome class
+	shapes   *vlib.Counter // shape classes explored
+	sampleMu sync.Mutex
+	sampled  map[string]bool
+	verbose  bool
+}
+
+type worker struct {
+	x  *explorer
+	sc *scratch
+}
+
+func placementIndex(p placement) int {
+	for i, q := range allPlacements {
+		if p == q {
+			return i
+		}
+	}
+	return len(allPlacements)
+}
+
+func where(p placement) string {
+	if p.Kind == "flat" {
+		return "same-directory-spelling-" + p.Style
+	}
+	return "transitive-import-in-other-directory"
+}
+
+func expectedText(e *expectation, mode string) string {
+	if mode == modeSeparate {
+		switch {
+		case e.MissingPkg:
+			return "an error (an imported file has no go_package)"
+		case e.PkgCyclic:
+			return "an import-cycle error (go_package graph reachable from the root is cyclic)"
+		}
+		return "a result (go_package graph reachable from the root is acyclic)"
+	}
+	if e.FileCyclic {
+		return "termination with a result or an error (cyclic file graph)"
+	}
+	return "the output of the inlined schema"
+}
+
+func excerpt(b []byte) string { return vlib.Short(string(b), 1200) }
+
+// explore runs one (graph, package assignment) through the given placements and both modes.
+// fixedFiles (replay only) overrides the materialised files of a placement.
+func (w *worker) explore(s *spec, places []placement, onlyMode string, assignIdx int, fixedFiles map[string]map[string]string, sampleAs string) []finding {
+	x := w.x
+	e := derive(s)
+	var ref *inlineRef
+	if !e.FileCyclic {
+		ref = makeInlineRef(s, e)
+	}
+	x.shapes.Add(e.Shape)
+	flatSigs := map[string]map[string]bool{}
+	flatRes := map[string]result{}
+	var all []finding
+	for _, p := range places {
+		files := materialise(s, p)
+		if ff, ok := fixedFiles[p.name()]; ok {
+			files = ff
+		}
+		slot := "p-" + p.Kind + "-" + p.Style
+		w.sc.install(slot, files)
+		root := w.sc.abs(p.rel(0))
+		for mi, mode := range modes {
+			if onlyMode != "" && mode != onlyMode {
+				continue
+			}
+			r := generateFile(root, mode)
+			x.states.Add(1)
+			x.evals.Add(1)
+			if !(mode == modeCombined && e.FileCyclic) {
+				x.asserted.Add(1)
+			}
+			counterfactual := func() bool {
+				x.evals.Add(1)
+				p2 := make([]string, s.N)
+				p2[0] = s.Pkgs[0]
+				s2 := s.withPkgs(p2)
+				e2 := derive(s2)
+				ref2 := makeInlineRef(s2, e2)
+				w.sc.install(slot, materialise(s2, p))
+				r2 := generateFile(root, modeCombined)
+				w.sc.install(slot, files)
+				if r2.class() != "ok" {
+					return false
+				}
+				k, _ := compareDecls(r2.Out, ref2.Out)
+				return k == ""
+			}
+			fs := judge(s, e, mode, r, ref, counterfactual)
+			marker := strings.Contains(string(r.Out), decoyMarker) || strings.Contains(r.errText(), decoyMarker)
+			isBase := p == allPlacements[0]
+			if isBase {
+				flatSigs[mode] = map[string]bool{}
+				for _, f := range fs {
+					flatSigs[mode][f.Sig] = true
+				}
+				flatRes[mode] = r
+				x.triples.Add(canon(s, e) + "|" + mode + "|" + r.class())
+				x.classes.Add(mode + "/" + r.class())
+			} else {
+				// oracle 4: the same logical graph in another placement / spelling must behave the same.
+				var out []finding
+				label := "wrong-result"
+				if r.Err != nil {
+					label = "error"
+				}
+				switch {
+				case marker:
+					out = append(out, finding{Sig: fmt.Sprintf("C18|path-resolution|%s|decoy-picked|%s", where(p), mode),
+						Msg: fmt.Sprintf("placement %s: a decoy file next to the ROOT (never addressed by any import path relative to its importing file) was read: it shows in the %s", p.name(), map[bool]string{true: "error: " + r.errText(), false: "generated output"}[r.Err != nil])})
+				default:
+					for _, f := range fs {
+						base, known := flatSigs[mode]
+						if strings.HasPrefix(f.Sig, "C18|termination|") || (known && base[f.Sig]) {
+							out = append(out, f)
+							continue
+						}
+						out = append(out, finding{Sig: fmt.Sprintf("C18|path-resolution|%s|%s|%s", where(p), label, mode),
+							Msg: fmt.Sprintf("placement %s (every import path written relative to the importing file) deviates although the same graph in one directory conforms: %s [%s]", p.name(), f.Msg, f.Sig)})
+					}
+					if fr, ok := flatRes[mode]; ok && len(fs) == 0 && len(flatSigs[mode]) == 0 && mode == modeSeparate &&
+						r.class() == "ok" && fr.class() == "ok" && string(r.Out) != string(fr.Out) {
+						x.evals.Add(1)
+						out = append(out, finding{Sig: fmt.Sprintf("C18|path-resolution|%s|output-differs-from-single-directory|%s", where(p), mode),
+							Msg: "the generated output differs from the output for the same files placed in one directory"})
+					}
+				}
+				fs = out
+			}
+			if sampleAs != "" && isBase {
+				x.run.Sample(map[string]any{"what": sampleAs, "edges": s.edgeString(), "go_packages": s.Pkgs, "mode": mode, "placement": p.name(),
+					"files": files, "shape": e.Shape, "reference_expects": expectedText(e, mode), "observed": r.class(), "error": r.errText(),
+					"generate_us": r.Dur.Microseconds(), "output_bytes": len(r.Out), "verdict": map[bool]string{true: "conforms", false: "VIOLATION"}[len(fs) == 0]})
+			}
+			for _, f := range fs {
+				f := f
+				f.Place, f.Mode, f.Observed, f.ObservedErr = p.name(), mode, r.class(), r.errText()
+				all = append(all, f)
+				rank := []int{len(e.Reach), len(s.edges()), s.N, e.PkgFiles, assignIdx, placementIndex(p), mi}
+				x.col.add(f.Sig, f.Msg, rank, func() map[string]any {
+					c := map[string]any{
+						"kind": "graph", "n": s.N, "edges": s.edgeString(), "edge_pairs": s.edges(), "go_packages": s.Pkgs,
+						"mode": mode, "placement": map[string]string{"kind": p.Kind, "style": p.Style}, "root": p.rel(0),
+						"files": files, "shape": e.Shape, "reachable_files": e.Reach,
+						"file_graph_cyclic": e.FileCyclic, "go_package_graph_cyclic": e.PkgCyclic, "imported_file_without_go_package": e.MissingPkg,
+						"reference_expects": expectedText(e, mode), "observed": r.class(), "observed_error": r.errText(),
+						"observed_output": excerpt(r.Out), "generate_us": r.Dur.Microseconds(),
+					}
+					if ref != nil && mode == modeCombined {
+						c["inline_schema"] = ref.Text
+					}
+					return c
+				})
+			}
+		}
+	}
+	return all
+}
+
+// ---------------------------------------------------------------------------------------------
+
+func parallel(n int, f func(w *worker, i int), x *explorer) {
+	nw := runtime.NumCPU()
+	if nw > n {
+		nw = n
+	}
+	if nw < 1 {
+		nw = 1
+	}
+	var next atomic.Int64
+	var wg sync.WaitGroup
+	for k := 0; k < nw; k++ {
+		wg.Add(1)
+		go func(k int) {
+			defer wg.Done()
+			w := &worker{x: x, sc: newScratch(filepath.Join(workBase, fmt.Sprintf("w%d", k)))}
+			for {
+				i := int(next.Add(1)) - 1
+				if i >= n {
+					return
+				}
+				f(w, i)
+			}
+		}(k)
+	}
+	wg.Wait()
+}
+
+func main() {
+	prop := flag.String("property", "C18", "")
+	replay := flag.String("replay", "", "")
+	relchild := flag.Bool("relchild", false, "internal: generate a root given by relative name from another cwd")
+	cwd := flag.String("cwd", "", "internal")
+	rootArg := flag.String("root", "", "internal")
+	modeArg := flag.String("mode", "", "internal")
+	flag.Parse()
+	if *relchild {
+		relChildMain(*cwd, *rootArg, *modeArg)
+		return
+	}
+	workBase = filepath.Join(vlib.VerifDir(), ".cache", "work", fmt.Sprintf("c18-%d", os.Getpid()))
+	if err := os.MkdirAll(workBase, 0o755); err != nil {
+		vlib.Fatal("cannot create %s: %v", workBase, err)
+	}
+	run := vlib.NewRun(*prop, "model_checking")
+	x := &explorer{run: run, col: &collector{m: map[string]*entry{}}, triples: vlib.NewCounter(), classes: vlib.NewCounter(),
+		shapes: vlib.NewCounter(), sampled: map[string]bool{}}
+	if *replay != "" {
+		rc := doReplay(x, *replay)
+		cleanup()
+		os.Exit(rc)
+	}
+
+	// ---- phase 1: all directed graphs ----
+	// a job is a block of consecutive masks (only f0's imports change between neighbours, so most
+	// files on disk stay as they are)
+	type job struct {
+		n      int
+		lo, hi uint64
+	}
+	var jobs []job
+	graphsPerN := map[string]int{}
+	totalGraphs := 0
+	for n := 1; n <= 4; n++ {
+		cnt := uint64(1) << uint(n*n)
+		graphsPerN[fmt.Sprint(n)] = int(cnt)
+		totalGraphs += int(cnt)
+		block := uint64(1) << uint(n) // all choices of f0's imports
+		if n == 3 {
+			block = 16
+		}
+		if n == 4 {
+			block = 64
+		}
+		for lo := uint64(0); lo < cnt; lo += block {
+			jobs = append(jobs, job{n, lo, lo + block})
+		}
+	}
+	assign := map[int][][]string{1: pkgAssignments(1), 2: pkgAssignments(2), 3: pkgAssignments(3)}
+	places4 := allPlacements
+	if run.Thorough() {
+		assign[4] = pkgAssignments(4)
+	} else {
+		a4 := pkgAssignments4()
+		assign[4] = [][]string{a4[0], a4[4]}
+		places4 = []placement{{"flat", "plain"}, {"flat", "mixed"}, {"deep", "plain"}, {"decoy", "plain"}}
+	}
+	samples := map[string]string{ // n:mask:assignment index -> label
+		fmt.Sprintf("3:%d", 1<<1|1<<2|1<<5):       "diamond over 3 files: f0 imports f1 and f2, f1 imports f2",
+		fmt.Sprintf("3:%d", 1<<1|1<<(3+2)|1<<(6+1)): "cycle below the root: f0 -> f1 -> f2 -> f1",
+		fmt.Sprintf("2:%d", 1<<1|1<<2):             "root re-imported: f0 -> f1 -> f0",
+	}
+	var graphsDone atomic.Int64
+	parallel(len(jobs), func(w *worker, i int) {
+		j := jobs[i]
+		places := allPlacements
+		if j.n == 4 {
+			places = places4
+		}
+		for ai, pk := range assign[j.n] {
+			if run.TimeUp("graph enumeration") {
+				return
+			}
+			for mask := j.lo; mask < j.hi; mask++ {
+				s := specFromMask(j.n, mask).withPkgs(pk)
+				label := ""
+				if l, ok := samples[fmt.Sprintf("%d:%d", j.n, mask)]; ok && allSet(pk) && allDistinct(pk) {
+					label = l
+				}
+				w.explore(s, places, "", ai, nil, label)
+			}
+		}
+		graphsDone.Add(int64(j.hi - j.lo))
+	}, x)
+	if int(graphsDone.Load()) != totalGraphs {
+		run.Cap(fmt.Sprintf("graph enumeration stopped after %d of %d graphs", graphsDone.Load(), totalGraphs))
+	}
+	enumStates := x.states.Load()
+
+	// ---- phase 2: termination families (layered diamonds, chains, complete DAGs) ----
+	famMs := terminationFamilies(x, run)
+
+	// ---- phase 3: relative root FileName, cwd changed in a subprocess ----
+	relRuns := relativeRootCheck(x)
+
+	// ---- report ----
+	sigs := make([]string, 0, len(x.col.m))
+	for s := range x.col.m {
+		sigs = append(sigs, s)
+	}
+	sort.Strings(sigs)
+	for _, s := range sigs {
+		e := x.col.m[s]
+		for k := 0; k < e.count; k++ {
+			run.Report(s, e.msg, e.c)
+		}
+	}
+	run.Coverage["rule"] = "every directed graph with self-loops over n<=4 files (root = f0) x go_package assignment x {separate, combined} x placement/spelling is written to disk and generated by the real code; reference = own FIFO reachability, own three-colour DFS over the go_package graph, own inliner + go/parser declaration comparison"
+	run.Coverage["states"] = x.states.Load()
+	run.Coverage["states_graph_enumeration"] = enumStates
+	run.Coverage["transitions"] = generateCalls.Load()
+	run.Coverage["traces_validated_against_impl"] = x.states.Load()
+	run.Coverage["states_asserting_more_than_termination"] = x.asserted.Load()
+	run.Coverage["evaluations"] = x.evals.Load()
+	run.Coverage["distinct_nontrivial"] = x.triples.Distinct()
+	run.Coverage["distinct_nontrivial_meaning"] = "distinct (reachable sub-graph + go_package pattern up to renaming of non-root files, mode, observed outcome class) triples, measured on the flat/plain placement"
+	run.Coverage["graphs_per_n"] = graphsPerN
+	run.Coverage["graphs_enumerated"] = graphsDone.Load()
+	run.Coverage["go_package_assignments_per_n"] = map[string]int{"1": len(assign[1]), "2": len(assign[2]), "3": len(assign[3]), "4": len(assign[4])}
+	pn := []string{}
+	for _, p := range allPlacements {
+		pn = append(pn, p.name())
+	}
+	run.Coverage["placements"] = pn
+	p4 := []string{}
+	for _, p := range places4 {
+		p4 = append(p4, p.name())
+	}
+	run.Coverage["placements_n4"] = p4
+	run.Coverage["outcome_classes"] = x.classes.Top(20)
+	run.Coverage["shape_classes"] = x.shapes.Top(20)
+	run.Coverage["max_generate_ms"] = float64(maxGenerateNs.Load()) / 1e6
+	run.Coverage["generate_calls_over_5s"] = slowCalls.Load()
+	run.Coverage["termination_families_ms"] = famMs
+	run.Coverage["relative_root_subprocess_runs"] = relRuns
+	run.Assume = append(run.Assume,
+		"type names are unique across files (E<i>, S<i>, M<i>); every message references one struct of each directly imported file; PackageName is always given, so a root without go_package is legal in both modes",
+		"separate mode: expected = error (any) if an imported file (the root counts when it is re-imported) has no go_package; else an error containing 'cycle' iff the go_package graph reachable from the root has a cycle (self-edges count: a file importing itself or a file of its own package); else no error. Nothing is asserted about the text of a separate-mode result except that it does not depend on placement/spelling",
+		"combined mode on a cyclic file graph: only termination is asserted",
+		"combined mode, inlined reference: go_package is treated as file metadata (only the first go_package const survives inlining, and the Go_package const is exempt from the declaration comparison); an error caused solely by several combined files carrying go_package is reported under its own signature C18|combined|error-on-acyclic|go_package-const-of-several-files-collides",
+		"the decoy oracle looks for the substring 'ecoy' (only decoy files contain it) in the output or error; apart from that and the word 'cycle' no error wording is asserted",
+		"symlinks, absolute import paths, import paths with backslashes, an empty File.FileName and colliding path.Base(go_package) namespaces are outside the alphabet",
+	)
+	cleanup()
+	run.Finish()
+}
+
+func allSet(p []string) bool {
+	for _, s := range p {
+		if s == "" {
+			return false
+		}
+	}
+	return true
+}
+
+func allDistinct(p []string) bool {
+	seen := map[string]bool{}
+	for _, s := range p {
+		if seen[s] {
+			return false
+		}
+		seen[s] = true
+	}
+	return true
+}
+
+// ---------------------------------------------------------------------------------------------
+// termination families
+
+func layeredDiamond(depth int, closed bool) *spec {
+	n := 1 + 2*depth
+	var edges [][2]int
+	edges = append(edges, [2]int{0, 1}, [2]int{0, 2})
+	for k := 1; k < depth; k++ {
+		for _, a := range []int{2*k - 1, 2 * k} {
+			edges = append(edges, [2]int{a, 2*k + 1}, [2]int{a, 2*k + 2})
+		}
+	}
+	if closed {
+		edges = append(edges, [2]int{2*depth - 1, 0}, [2]int{2 * depth, 0})
+	}
+	return specFromEdges(n, edges)
+}
+
+func chain(l int, closed bool) *spec {
+	var edges [][2]int
+	for i := 0; i+1 < l; i++ {
+		edges = append(edges, [2]int{i, i + 1})
+	}
+	if closed {
+		edges = append(edges, [2]int{l - 1, 0})
+	}
+	return specFromEdges(l, edges)
+}
+
+func completeDAG(k int) *spec {
+	var edges [][2]int
+	for i := 0; i < k; i++ {
+		for j := i + 1; j < k; j++ {
+			edges = append(edges, [2]int{i, j})
+		}
+	}
+	return specFromEdges(k, edges)
+}
+
+func terminationFamilies(x *explorer, run *vlib.Run) map[string]float64 {
+	type fam struct {
+		name string
+		s    *spec
+	}
+	var fams []fam
+	for d := 1; d <= 12; d++ {
+		fams = append(fams, fam{fmt.Sprintf("layered-diamond-depth-%02d", d), layeredDiamond(d, false)})
+	}
+	fams = append(fams, fam{"layered-diamond-depth-12-closed", layeredDiamond(12, true)},
+		fam{"layered-diamond-depth-06-closed", layeredDiamond(6, true)})
+	chains := []int{2, 10, 50, 200}
+	dags := []int{6, 10, 12}
+	if run.Thorough() {
+		chains = append(chains, 1000)
+		dags = append(dags, 14, 16)
+		for _, d := range []int{14, 16, 18} {
+			fams = append(fams, fam{fmt.Sprintf("layered-diamond-depth-%02d", d), layeredDiamond(d, false)})
+		}
+	}
+	for _, l := range chains {
+		fams = append(fams, fam{fmt.Sprintf("chain-%04d", l), chain(l, false)}, fam{fmt.Sprintf("chain-%04d-closed", l), chain(l, true)})
+	}
+	for _, k := range dags {
+		fams = append(fams, fam{fmt.Sprintf("complete-dag-%02d", k), completeDAG(k)})
+	}
+	var mu sync.Mutex
+	ms := map[string]float64{}
+	parallel(len(fams), func(w *worker, i int) {
+		f := fams[i]
+		for ai, pk := range [][]string{distinctPkgs(f.s.N), make([]string, f.s.N)} {
+			s := f.s.withPkgs(pk)
+			before := time.Now()
+			w.explore(s, allPlacements[:1], "", ai, nil, "")
+			mu.Lock()
+			ms[f.name+map[int]string{0: "/distinct-go_packages", 1: "/no-go_package"}[ai]] = float64(time.Since(before).Microseconds()) / 1000
+			mu.Unlock()
+		}
+	}, x)
+	return ms
+}
+
+// ---------------------------------------------------------------------------------------------
+// replay
+
+type replayFile struct {
+	Signature string         `json:"signature"`
+	Message   string         `json:"message"`
+	Case      map[string]any `json:"case"`
+}
+
+func doReplay(x *explorer, path string) int {
+	b, err := os.ReadFile(path)
+	if err != nil {
+		fatalf("cannot read replay file: %v", err)
+	}
+	var rf replayFile
+	if err := json.Unmarshal(b, &rf); err != nil || rf.Case == nil {
+		fatalf("replay file %s has no C18 case: %v", path, err)
+	}
+	var c struct {
+		Kind      string            `json:"kind"`
+		N         int               `json:"n"`
+		Pairs     [][2]int          `json:"edge_pairs"`
+		Pkgs      []string          `json:"go_packages"`
+		Mode      string            `json:"mode"`
+		Placement map[string]string `json:"placement"`
+		Files     map[string]string `json:"files"`
+		Cwd       string            `json:"cwd"`
+	}
+	cb, _ := json.Marshal(rf.Case)
+	if err := json.Unmarshal(cb, &c); err != nil || c.N == 0 || len(c.Pkgs) != c.N {
+		fatalf("replay case is not a C18 case: %v", err)
+	}
+	s := specFromEdges(c.N, c.Pairs).withPkgs(c.Pkgs)
+	p := placement{c.Placement["kind"], c.Placement["style"]}
+	e := derive(s)
+	fmt.Printf("replaying %s\n  graph %s  go_packages %q  mode %s  placement %s  shape %s\n  reference expects: %s\n",
+		rf.Signature, s.edgeString(), s.Pkgs, c.Mode, p.name(), e.Shape, expectedText(e, c.Mode))
+	if c.Kind == "relative-root" {
+		fs := relativeOne(x, s, p, c.Mode, c.Cwd, 0)
+		for _, f := range fs {
+			fmt.Printf("  STILL VIOLATES %s\n    %s\n", f.Sig, f.Msg)
+		}
+		if len(fs) > 0 {
+			return 1
+		}
+		fmt.Println("  conforms now")
+		return 0
+	}
+	if len(c.Files) > 0 {
+		gen := materialise(s, p)
+		same := len(gen) == len(c.Files)
+		for k, v := range c.Files {
+			if gen[k] != v {
+				same = false
+			}
+		}
+		if !same {
+			fmt.Println("  note: the files stored in the replay differ from what this harness version would write; using the stored files")
+		}
+	}
+	w := &worker{x: x, sc: newScratch(filepath.Join(workBase, "replay"))}
+	places := []placement{allPlacements[0]}
+	fixed := map[string]map[string]string{}
+	if p != allPlacements[0] {
+		places = append(places, p)
+	}
+	if len(c.Files) > 0 {
+		fixed[p.name()] = c.Files
+	}
+	for _, k := range sortedKeys(c.Files) {
+		fmt.Printf("  --- %s\n%s", k, indent(c.Files[k]))
+	}
+	fs := w.explore(s, places, c.Mode, 0, fixed, "")
+	bad := 0
+	for _, f := range fs {
+		if f.Place != p.name() {
+			continue // the single-directory baseline run, only used to classify
+		}
+		bad++
+		fmt.Printf("  observed: %s  error: %q\n  STILL VIOLATES %s\n    %s\n", f.Observed, f.ObservedErr, f.Sig, f.Msg)
+	}
+	if bad > 0 {
+		return 1
+	}
+	fmt.Println("  conforms now")
+	return 0
+}
+
+func indent(s string) string {
+	return "      " + strings.ReplaceAll(strings.TrimRight(s, "\n"), "\n", "\n      ") + "\n"
 }
